@@ -173,7 +173,7 @@ extern struct rb_ghost g_rb;
 #define RB_CLA1(i) ((i) <= g_rb.na ? (i) : 0)
 #define RB_CLE1(j) ((j) <= g_rb.ne ? (j) : 0)
 #define RB_ASSIGN_MEM(t, i) \
-    (i) < g_rb.na && (t)->area[i].mem != NULL: __CPROVER_object_whole((t)->area[i].mem)
+    (i) < g_rb.na && (t)->area[i].mem != NULL: __CPROVER_object_upto((t)->area[i].mem, (t)->area[i].size * sizeof(RegisterAtom))
 #define RB_INIT_IS_AREA_CODE(c) ((c) == REG_INIT_NO_AREAS || (c) == REG_INIT_AREA_INVALID_ORDER || (c) == REG_INIT_AREA_ADDRESS_OVERLAP)
 #define RB_INIT_IS_ENTRY_CODE(c) ((c) == REG_INIT_ENTRY_INVALID_ORDER || (c) == REG_INIT_ENTRY_ADDRESS_OVERLAP \
     || (c) == REG_INIT_ENTRY_IN_MEMORY_HOLE || (c) == REG_INIT_ENTRY_INVALID_DEFAULT)
@@ -191,8 +191,9 @@ __CPROVER_requires(g_rb.na <= RB_NA && g_rb.ne <= RB_NE)
 __CPROVER_requires(__CPROVER_rw_ok(t->area, (g_rb.na + 1) * sizeof(RegisterArea)))
 __CPROVER_requires(__CPROVER_rw_ok(t->entry, (g_rb.ne + 1) * sizeof(RegisterEntry)))
 __CPROVER_requires(RB_AREA_IS_END(&t->area[g_rb.na]) && RB_ENTRY_IS_END(&t->entry[g_rb.ne]))
-__CPROVER_assigns(t->flags, t->areas, t->entries,
-    __CPROVER_object_whole(t->area), __CPROVER_object_whole(t->entry);
+__CPROVER_assigns(t->flags, t->areas, t->entries;
+    g_rb.na > 0: __CPROVER_object_upto(t->area, g_rb.na * sizeof(RegisterArea));
+    g_rb.ne > 0: __CPROVER_object_upto(t->entry, g_rb.ne * sizeof(RegisterEntry));
     RB_ASSIGN_MEM(t, 0); RB_ASSIGN_MEM(t, 1); RB_ASSIGN_MEM(t, 2); RB_ASSIGN_MEM(t, 3); RB_ASSIGN_MEM(t, 4); RB_ASSIGN_MEM(t, 5))
 /* verdict */
 __CPROVER_ensures(__CPROVER_return_value.code == g_rb.init.code)
